@@ -686,6 +686,41 @@ def rule_skips(ctx: Ctx) -> RuleResult:
         else:
             res.violation([q, "skip", txt], f"FindInPaths.star_search_simple skips a found path under `{txt}`: existing entities conforming to the "
                                             f"searched type are dropped for a reason the other finders do not have", f.relpath, c.lineno)
+    # what the file system is asked with, and what is done to its answers before they are resolved: glob.glob (which leaves dot-files -
+    # the data sidecars - out) and nothing that rewrites the path (following links, making it absolute, normalising it)
+    from .pathops import LOSSY_PATH_CALLS
+
+    listers = [x for x in own_nodes(f.node) if isinstance(x, ast.Call) and ((dotted(x.func) or "").split(".")[-1] in (
+        "glob", "iglob", "rglob", "listdir", "scandir", "walk", "iterdir", "fnmatch", "filter"))]
+    for x in listers:
+        nm = dotted(x.func) or norm(x.func)
+        hidden = any(k.arg == "include_hidden" and not (isinstance(k.value, ast.Constant) and k.value.value is False) for k in x.keywords)
+        if nm not in ("glob.glob", "glob.iglob") or hidden:
+            res.violation([q, "file-system listing", nm], f"FindInPaths.star_search_simple lists the file system with `{norm(x)[:60]}`: unlike glob.glob it "
+                                                          f"also answers names starting with a dot, so the hidden data sidecars become candidates (and, at the "
+                                                          f"levels with free names, entities)", f.relpath, x.lineno)
+    if listers:
+        res.ok("FindInPaths: listing", "glob.glob: dot-files are not listed")
+    sfl = flow_of(f.node)
+    for x in own_nodes(f.node):
+        if isinstance(x, ast.Call) and isinstance(x.func, ast.Attribute) and x.func.attr in LOSSY_PATH_CALLS and x.func.attr not in ("strip", "rstrip", "lstrip",
+                                                                                                                                       "lower", "upper"):
+            at_ = sfl.node_of(x)
+            deps_ = sfl.depends(x.func.value, at_.id if at_ is not None else None)
+            if any(a_.kind == "call" and ("glob" in a_.text or a_.text.split(".")[-1] in ("listdir", "scandir", "iterdir")) for a_ in deps_):
+                res.violation([q, "found path rewritten", x.func.attr], f"FindInPaths.star_search_simple passes a found path through `.{x.func.attr}()` before "
+                                                                        f"resolving it: the path that is typed is not the path that was found (a symbolic "
+                                                                        f"link on the way, a relative root), entities reached that way are lost or answered as "
+                                                                        f"another Sid", f.relpath, x.lineno)
+    # one typed search that cannot be answered is skipped, it does not end the search: no bare return inside the loop over the searches
+    for lp in [x for x in own_nodes(f.node) if isinstance(x, ast.For)]:
+        inner_loops = [y for y in ast.walk(lp) if isinstance(y, ast.For) and y is not lp]
+        if any(any(z is lp for z in ast.walk(o)) for o in own_nodes(f.node) if isinstance(o, ast.For) and o is not lp):
+            continue  # only the outermost loop (over the typed searches)
+        for r_ in [y for y in ast.walk(lp) if isinstance(y, ast.Return)]:
+            res.violation([q, "return in the search loop", norm(r_)], f"FindInPaths.star_search_simple leaves the generator (`{norm(r_)}`) from inside the "
+                                                                     f"loop over the typed searches: every search after this one is dropped, although "
+                                                                     f"only this one cannot be answered", f.relpath, r_.lineno)
     res.floor(n, 4, "skip statements in star_search_simple")
     # required guards on the yield
     ys = [y for y in _yields(f) if isinstance(y, ast.Yield)]
@@ -1281,6 +1316,27 @@ def rule_finderid(ctx: Ctx) -> RuleResult:
     for q, base in (("spil_data_conf.get_finder_for", "spil.sid.read.finder.Finder"), ("spil_data_conf.get_getter_for", "spil.sid.read.getter.Getter")):
         f = ctx.p.function(q)
         cfg = cfg_of(f.node)
+        # a table that is filled once must not be computed from another table that is filled lazily by someone else: what it
+        # contains then depends on which entry point of the library was used first
+        lazy = set()
+        for g in ctx.p.functions.values():
+            if g.module is not f.module or g is f:
+                continue
+            for x in own_nodes(g.node):
+                if isinstance(x, ast.Call) and isinstance(x.func, ast.Attribute) and x.func.attr in ("update", "setdefault", "append", "add") \
+                        and isinstance(x.func.value, ast.Name) and x.func.value.id in f.module.bindings:
+                    lazy.add(x.func.value.id)
+                if isinstance(x, ast.Assign) and isinstance(x.targets[0], ast.Subscript) and isinstance(x.targets[0].value, ast.Name) \
+                        and x.targets[0].value.id in f.module.bindings:
+                    lazy.add(x.targets[0].value.id)
+        for x in own_nodes(f.node):
+            if isinstance(x, ast.Call) and isinstance(x.func, ast.Attribute) and x.func.attr == "update" and isinstance(x.func.value, ast.Name) \
+                    and x.func.value.id in f.module.bindings:
+                reads = sorted({y.id for a_ in x.args for y in ast.walk(a_) if isinstance(y, ast.Name) and y.id in lazy and y.id != x.func.value.id})
+                if reads:
+                    res.violation([q, x.func.value.id, "built from a lazily filled table", reads[0]],
+                                  f"{q} fills `{x.func.value.id}` once from `{reads[0]}`, which another function of the configuration fills on its first "
+                                  f"call: whether the entries exist depends on which of the two was called first in the process", f.relpath, x.lineno)
         n = 0
         for c in own_nodes(f.node):
             if not isinstance(c, ast.Call):
@@ -1603,4 +1659,28 @@ def rule_constvalid(ctx: Ctx) -> RuleResult:
                                                                      f"testing that it is a typed Sid: an invalid combination of root and constant "
                                                                      f"is answered as a (falsy, untyped) result", m.relpath, y.lineno, site=site)
     res.floor(n, 3, "yields of built Sids in FindInConstants")
+    return res
+
+
+def rule_sidnotpath(ctx: Ctx) -> RuleResult:
+    """C08 (and every property that reads Sid strings): a Sid string is split and joined at the configured separator by string methods;
+    pathlib / os.path know about '.', '..', roots and doubled separators, which mean nothing in a Sid (`PurePosixPath('a/b').parents`
+    ends in '.')"""
+    res = RuleResult("R-SIDNOTPATH")
+    n = 0
+    for f in ctx.p.functions.values():
+        if f.module.kind != "library" or not (f.module.name.startswith("spil.sid.core.") or f.module.name.startswith("spil.sid.read.")):
+            continue
+        if f.module.name.endswith("find_cache"):
+            continue
+        n += 1
+        for x in own_nodes(f.node):
+            if isinstance(x, ast.Call):
+                nm = dotted(x.func) or ""
+                last = nm.split(".")[-1]
+                if last in ("PurePosixPath", "PurePath", "PureWindowsPath", "Path") or nm.startswith("os.path.") or nm.startswith("posixpath."):
+                    res.violation([f.qualname, "path API on a Sid", nm], f"{f.short} handles a Sid string with `{norm(x)[:50]}`: path semantics ('.', '..', "
+                                                                         f"roots, doubled separators) leak into Sids", f.relpath, x.lineno)
+    res.floor(n, 30, "functions of spil.sid.core / spil.sid.read examined")
+    res.ok("spil.sid.core, spil.sid.read", f"{n} functions, none uses pathlib / os.path on Sid strings", nontrivial=False)
     return res
